@@ -601,6 +601,7 @@ def x_log(I, args, kw, node):
     I.assume(z3.Implies(v == 1, r == 0))
     I.assume(z3.Implies(v < 1, r < 0))
     I.assume(r <= v - 1)
+    I.assume(z3.Implies(v * 2 >= 1, r > -1))
     for (v2, r2) in I.log_terms:
         I.assume(z3.Implies(v < v2, r < r2))
         I.assume(z3.Implies(v2 < v, r2 < r))
@@ -1110,4 +1111,5 @@ def x_timedelta(I, args, kw, node):
     return Rec("timedelta", days=kw.get("days", 0), seconds=kw.get("seconds", 0), microseconds=kw.get("microseconds", 0))
 
 
-EXTERNALS_ATTR = {"datetime.datetime.min": lambda: Rec("datetime.min")}
+import math as _math
+EXTERNALS_ATTR = {"datetime.datetime.min": lambda: Rec("datetime.min"), "math.pi": lambda: _math.pi}
